@@ -61,3 +61,87 @@ def stop_while_uod_commands_follow_back_to_back():
         return {"violated": False, "scenarios": 10}
     finally:
         logging.disable(logging.NOTSET)
+
+
+def user_started_command_then_stop():
+    """a long-running UOD command started from the USER side (its node is a NullNode, so tracking refuses to mark it cancelled), then Stop
+    or Restart a few ticks later: nothing may stay allocated or keep executing"""
+    from openpectus.lang.exec.uod import UodBuilder, UodCommand
+    from openpectus.test.engine.utility_methods import EngineTestRunner
+    logging.disable(logging.CRITICAL)
+    execs = []
+
+    def hold_valve(cmd: UodCommand, **kw):
+        execs.append(1)
+
+    def create_uod():
+        uod = (UodBuilder().with_instrument("DemoUod").with_author("Demo", "demo@example.org").with_filename(__file__)
+               .with_hardware_none().with_location("loc").with_command(name="HoldValve", exec_fn=hold_valve).build())
+        uod.hwl.connect()
+        return uod
+    try:
+        for stopper in ("Stop", "Restart"):
+            for delay in (1, 2, 4):
+                with EngineTestRunner(create_uod, "Mark: A\nWait: 5s\n", fail_on_log_error=False).run() as instance:
+                    e = instance.engine
+                    instance.start()
+                    instance.run_ticks(2)
+                    e.execute_control_command_from_user("HoldValve")
+                    for _ in range(delay):
+                        instance.run_ticks(1)
+                    e.execute_control_command_from_user(stopper)
+                    for _ in range(5):
+                        try:
+                            instance.run_ticks(1)
+                        except Exception:
+                            pass
+                    n_before = len(execs)
+                    for _ in range(3):
+                        try:
+                            instance.run_ticks(1)
+                        except Exception:
+                            pass
+                    left = list(e.uod.command_instances.keys())
+                    if left or len(execs) != n_before:
+                        return {"violated": True, "scenario": f"user-started HoldValve, {stopper} {delay} tick(s) later",
+                                "instances_left": left, "still_executing": len(execs) != n_before}
+        return {"violated": False, "scenarios": 6}
+    finally:
+        logging.disable(logging.NOTSET)
+
+
+def command_and_stop_in_the_same_tick():
+    """a UOD command and Stop / Restart requested by the user between the same two ticks (the command first): the command's request is
+    in the executing list but has no instance when Stop cancels all commands"""
+    from openpectus.lang.exec.uod import UodBuilder, UodCommand
+    from openpectus.test.engine.utility_methods import EngineTestRunner
+    logging.disable(logging.CRITICAL)
+
+    def hold_valve(cmd: UodCommand, **kw):
+        pass
+
+    def create_uod():
+        uod = (UodBuilder().with_instrument("DemoUod").with_author("Demo", "demo@example.org").with_filename(__file__)
+               .with_hardware_none().with_location("loc").with_command(name="HoldValve", exec_fn=hold_valve).build())
+        uod.hwl.connect()
+        return uod
+    try:
+        for stopper in ("Stop", "Restart"):
+            with EngineTestRunner(create_uod, "Mark: A\nWait: 5s\n", fail_on_log_error=False).run() as instance:
+                e = instance.engine
+                instance.start()
+                instance.run_ticks(2)
+                e.execute_control_command_from_user("HoldValve")
+                e.execute_control_command_from_user(stopper)
+                for _ in range(6):
+                    try:
+                        instance.run_ticks(1)
+                    except Exception:
+                        pass
+                left = list(e.uod.command_instances.keys())
+                if left:
+                    return {"violated": True, "scenario": f"HoldValve and {stopper} requested between the same two ticks", "instances_left": left,
+                            "system_state": str(e._system_tags["System State"].get_value())}
+        return {"violated": False, "scenarios": 2}
+    finally:
+        logging.disable(logging.NOTSET)
